@@ -13,7 +13,7 @@ REPLAYS = os.path.join(VERIF, "replays")
 
 # property -> units that own obligations for it (DESIGN.md section 5)
 PROPERTY_UNITS = {
-    "C06": ["V1_runtime"],
+    "C06": ["V1_runtime", "V2_basic"],
     "C07": ["V1_runtime", "K1_numbers", "V2_basic"],
     "C08": ["V1_runtime"],
     "C09": ["K1_numbers", "V1_runtime"],
